@@ -247,7 +247,7 @@ Lemma estimate_skeleton_ok :
    "raw_results = res.RawResults(self, xstar, f_g_h_b, bootstrap=self.bootstrap_results)";
    "r = res.bioResults(raw_results, identification_threshold=self.identification_threshold)";
    "estimated_betas = r.get_beta_values()";
-   "for f in self.formulas.values(): f.change_init_values(estimated_betas)";
+   "self.change_init_values(estimated_betas)";
    "return r"]%string.
 Proof. reflexivity. Qed.
 
@@ -285,7 +285,9 @@ Section Est.
       r = mkRaw (free_names i) (solution out) (free_bounds i) (L (free_values i))
                 (L (solution out)) (gradL (solution out)) (hessL (solution out)) (bhhhL (solution out))
                 (convergence out) /\
-      s' = mkState (map (change_init_formula (combine (free_names i) (solution out))) (st_formulas s1)) i.
+      s' = mkState (map (change_init_formula (combine (free_names i) (solution out))) (st_formulas s1))
+                   (mkIdm (free_names i) (overlay (free_names i) (free_values i) (combine (free_names i) (solution out)))
+                          (free_bounds i)).
   Proof.
     intros alg p si saved s r s' E. unfold est, estimate, optimize in E. cbn zeta in E.
     fold (routine alg) in E.
@@ -366,10 +368,27 @@ Section Est.
     - repeat split; reflexivity.
   Qed.
 
+  Lemma overlay_skip : forall ns vs n (x : R) d, ~ In n ns -> overlay ns vs ((n, x) :: d) = overlay ns vs d.
+  Proof.
+    induction ns as [|m ns IH]; intros [|v vs] n x d H; cbn; try reflexivity.
+    destruct (String.eqb_spec m n) as [E|_]; [exfalso; apply H; left; exact E|].
+    f_equal. apply IH. intros I. apply H. right. exact I.
+  Qed.
+
+  Lemma overlay_combine : forall ns vs xs, NoDup ns -> List.length vs = List.length ns -> List.length xs = List.length ns ->
+    overlay ns vs (combine ns xs) = xs.
+  Proof.
+    induction ns as [|n ns IH]; intros [|v vs] [|x xs] ND H1 H2; cbn in *; try lia; try reflexivity.
+    inversion ND; subst. rewrite String.eqb_refl. f_equal.
+    rewrite overlay_skip by assumption. apply IH; [assumption | lia | lia].
+  Qed.
+
   Lemma writeback : forall alg p si saved s r s',
     est alg p si saved s = Some (r, s') ->
     NoDup (r_betaNames r) -> List.length (r_betaValues r) = List.length (r_betaNames r) ->
-    st_idm s' = st_idm (load_saved si saved s) /\
+    List.length (free_values (st_idm (load_saved si saved s))) = List.length (r_betaNames r) ->
+    free_names (st_idm s') = r_betaNames r /\ free_values (st_idm s') = r_betaValues r /\
+    free_bounds (st_idm s') = r_bounds r /\
     Forall2 (Forall2 (fun b b' =>
         b_name b' = b_name b /\ b_lb b' = b_lb b /\ b_ub b' = b_ub b /\ b_fixed b' = b_fixed b /\
         (forall k, (k < List.length (r_betaNames r))%nat -> b_name b = nth k (r_betaNames r) ""%string ->
@@ -377,8 +396,9 @@ Section Est.
         (~ In (b_name b) (r_betaNames r) -> b' = b)))
       (st_formulas (load_saved si saved s)) (st_formulas s').
   Proof.
-    intros alg p si saved s r s' E ND HL. apply estimate_unfold in E. cbn zeta in E.
+    intros alg p si saved s r s' E ND HL HV. apply estimate_unfold in E. cbn zeta in E.
     destruct E as (rt & fb & _ & -> & ->). cbn in *. split; [reflexivity|].
+    split; [apply overlay_combine; assumption|]. split; [reflexivity|].
     set (d := combine _ _).
     induction (st_formulas (load_saved si saved s)) as [|f fs IHf]; cbn; constructor; [|exact IHf].
     induction f as [|b f IHb]; cbn; constructor; [|exact IHb].
